@@ -25,6 +25,12 @@ var verifC05Templates = []string{
 	"match (n) return n.name, collect(n.id) order by n.name desc",
 	"match (g:Group) where g.name = 'x' with g match p = (s:User)-[:MemberOf*0..]->(:Group)-[:AdminTo]->(d:Computer) where d.name contains 'y' return g, p",
 	"match p = (s:User {objectid: 'S-1-5', enabled: true})-[:MemberOf*0..]->(:Group)-[:AdminTo]->(d:Computer) where d.name contains 'y' return p",
+	// several updates of one variable in one part: collections keyed by name are involved
+	"match (s) where s.name = 'x' remove s.a, s.b, s.c return s",
+	"match (s) where s.name = 'x' remove s.a remove s.b return s",
+	"match (s) where s.name = 'x' set s.a = 1, s.b = 2, s.c = 3 remove s.d, s.e return s",
+	"match (s) where s.name = 'x' set s:KindA:KindB remove s:KindC:KindD return s",
+	"match (s)-[r]->(e) where s.name = 'x' set s.a = 1, e.b = 2, r.c = 3 remove s.d, e.f, r.g return s",
 }
 
 func verifC05Params() map[string]any {
